@@ -63,6 +63,13 @@ impl<Req, Res, E> InnerFut<Req, Res, E> {
 // ---- types of /repo (shape-checked); hashbrown::HashMap is read as std HashMap (same get/insert/remove contract) ----
 pub enum CoalesceError<E> { Service(E), LeaderCancelled, RecvError }
 pub struct InFlight<K, Res, E> { pub requests: HashMap<K, Sender<Res, E>> }
+/// the leader's registration held by an RAII guard between try_join and the construction of the future
+pub struct Registration<K, Res, E> { pub key: Option<K>, pub in_flight: Arc<InFlight<K, Res, E>> }
+/// constructing the guard hands the registration duty to it (its Drop is under contract below)
+pub fn vx_guard_registration<K, Req, Res, E>(g: Registration<K, Res, E>, Tracked(tr): Tracked<&mut Trace<Req, Res, E>>) -> (r: Registration<K, Res, E>)
+    requires old(tr).unguarded >= 1, g.key is Some,
+    ensures r == g, *final(tr) == (Trace { unguarded: (old(tr).unguarded - 1) as nat, guarded: old(tr).guarded + 1, ..*old(tr) }),
+{ proof { tr.unguarded = (tr.unguarded - 1) as nat; tr.guarded = tr.guarded + 1; } g }
 pub struct CoalesceConfig<K, F> { pub key_extractor: F, pub p: PhantomData<K> }
 pub struct CoalesceService<Req, Res, E, K, F> { pub inner: Inner<Req, Res, E>, pub config: Arc<CoalesceConfig<K, F>>, pub in_flight: Arc<InFlight<K, Res, E>>, pub _req: PhantomData<Req> }
 pub enum CoalesceFuture<Req, Res, E, K> {
@@ -101,6 +108,17 @@ impl<K: Hash + Eq + VClone, Res: VClone, E: VClone> InFlight<K, Res, E> {
     //@body InFlight::cancel
 }
 
+impl<K: Hash + Eq + VClone, Res: VClone, E: VClone> Registration<K, Res, E> {
+    /// impl Drop for Registration: un-registers the key if the guard still holds it
+    pub fn drop<Req>(&mut self, Tracked(tr): Tracked<&mut Trace<Req, Res, E>>)
+        requires obeys_key_model::<K>(), old(tr).removed == 0,
+        ensures
+            old(self).key is Some ==> final(tr).removed == 1 && final(tr).sent == old(tr).sent,   // #dropped_registration_frees_its_key_without_sending [C11]
+            old(self).key is None ==> final(tr).removed == 0,   // #disarmed_registration_does_nothing [C11]
+            final(self).key is None,   // #key_released_on_drop [C11]
+    //@body Registration::drop@Drop
+}
+
 impl<Req, Res: VClone, E: VClone, K: Hash + Eq + VClone, F: Fn(&Req) -> K> CoalesceService<Req, Res, E, K, F> {
     pub fn clone(&self) -> (r: Self)
         ensures r.in_flight == self.in_flight && r.config == self.config,   // #clones_share_the_in_flight_map [C11]
@@ -120,7 +138,7 @@ impl<Req, Res: VClone, E: VClone, K: Hash + Eq + VClone, F: Fn(&Req) -> K> Coale
             f is Waiting ==> final(tr).calls == 0 && final(tr).unguarded == 0,   // #a_waiter_makes_no_inner_call_of_its_own [C11]
             f is Leading ==> final(tr).calls == 1 && final(tr).last_req == Some(request)
                 && f->key is Some && call_ensures(old(self).config.key_extractor, (&request,), f->key->0) && f->in_flight == old(self).in_flight,   // #the_leader_makes_exactly_one_inner_call_and_owns_its_key [C11,C20]
-            f is Leading ==> final(tr).unguarded == 1,   // the returned future takes over the duty (its Drop is under contract)
+            f is Leading ==> final(tr).unguarded == 1 && final(tr).guarded == 1,   // the duty moved from the registration guard into the returned future (both Drops are under contract)
             final(self).in_flight == old(self).in_flight && final(self).config == old(self).config,   // #frame
     //@body CoalesceService::call@Service
 }
